@@ -67,3 +67,21 @@ package csblob
 //@   nopanic
 //@   ensures @only_linked_hashes ret1 == nil ==> ret0 == 3 || ret0 == 5 || ret0 == 6
 //@   modifies nothing
+
+//@ func (*SigBlob).bestDir
+//@   property C11 C02
+//@   nopanic
+//@   requires forall(k, 0, len(s.Directories), s.Directories[k] != nil)
+//@   ensures @a_directory_of_the_blob_or_nothing ret0 == nil || exists(k, 0, len(s.Directories), s.Directories[k] == ret0)
+//@   loop 0 sig "for _, dir2 := range s.Directories" invariant dir == nil || exists(k, 0, len(s.Directories), s.Directories[k] == dir)
+//@   modifies nothing
+//@
+//@ func (*SigBlob).VerifyPages
+//@   property C02 C11
+//@   nopanic
+//@   requires r != nil && forall(k, 0, len(s.Directories), s.Directories[k] != nil && 1 <= s.Directories[k].HashFunc && s.Directories[k].HashFunc <= 19)
+//@   allocbound 0 16777216
+//@   ghost compared int = 0
+//@   on call crypto/hmac.Equal(a, b) ret (r): compared = compared + ite(r, 1, 0)
+//@   loop 0 sig "for i, expected := range dir.CodeHashes" invariant compared == rangeindex + 1 && dir != nil && len(page) >= 0 && pageSize >= 1 && len(page) <= pageSize && cap(page) == pageSize
+//@   ensures @every_hash_slot_compared_with_the_page_read ret0 == nil && dir.Header.PageSizeLog2 != 0 ==> compared == len(dir.CodeHashes)
